@@ -44,6 +44,12 @@ type vpBcastEnv struct {
 	hold    chan struct{}
 }
 
+// vpNativeErr: a failure as a foreign backend words it (not a BroadcastError
+// until Config.MapCustomBroadcastError has translated it).
+type vpNativeErr struct{ code BroadcastErrorCode }
+
+func (e vpNativeErr) Error() string { return "backend: native failure" }
+
 // VerifH_C15_handler: up to `events` events (broadcast request with
 // outcome accepted / already-in-mempool / rejected, block notification,
 // confirmation) over a parent, its child and an unrelated transaction.
@@ -102,6 +108,26 @@ func VerifH_C15_handler() {
 			return &blockntfns.Subscription{Notifications: e.ntfns, Cancel: func() { e.cancelled = true }}, nil
 		},
 		RebroadcastInterval: time.Minute,
+	}
+	// a backend other than neutrino's own reports failures in its native
+	// vocabulary; the configured mapping turns them into BroadcastErrors
+	custom := vpParam("custombackend", 1) == 1 && vpRange("customBackend", 0, 1) == 1
+	if custom {
+		vpReach("custom-backend")
+		plain := cfg.Broadcast
+		cfg.Broadcast = func(tx *wire.MsgTx) error {
+			err := plain(tx)
+			if be, ok := err.(*BroadcastError); ok {
+				return vpNativeErr{code: be.Code}
+			}
+			return err
+		}
+		cfg.MapCustomBroadcastError = func(err error) error {
+			if ne, ok := err.(vpNativeErr); ok {
+				return &BroadcastError{Code: ne.code, Reason: "mapped"}
+			}
+			return err
+		}
 	}
 	e.b = NewBroadcaster(cfg)
 	if err := e.b.Start(); err != nil {
